@@ -117,9 +117,26 @@ class Ctx:
         dt = time.time() - t0
         self.results.append(
             {"name": name, "status": status, "model": model, "s": dt, "backend": backend, "canary": expect_refuted,
-             "decisions": list(self.decisions)}
+             "decisions": list(self.decisions), "goal": goal, "pc": list(self.pc)}
         )
         return status
+
+
+def robust_model(r, margins, timeout_ms=5000):
+    """A second counter-model of a refuted obligation that also satisfies ``margins`` (z3 Bool terms keeping the inputs away from
+    degenerate values such as zeros, which floating-point replay cannot distinguish).  Returns the model, or None: the original
+    counter-model stands either way -- this only serves native replay."""
+    try:
+        s = z3.Solver()
+        s.set("timeout", timeout_ms)
+        s.add(*[c for c in r["pc"] if not has_quantifier(c)])
+        s.add(z3.Not(r["goal"]))
+        s.add(*margins)
+        if s.check() == z3.sat:
+            return s.model()
+    except z3.Z3Exception:
+        pass
+    return None
 
 
 def has_quantifier(t):
